@@ -10,7 +10,7 @@ Open Scope N_scope.
 
 Theorem C10_limits :
   max_array_len = 1048576%Z /\ max_bulk_len = 536870912%Z /\ 32 <= session_dec_buf /\ 32 <= client_dec_buf /\
-  32 <= default_buffer_size /\ (min_itoa <= max_itoa)%Z.
+  32 <= default_buffer_size /\ (min_itoa <= max_itoa)%Z /\ 8 <= max_array_depth <= 1024.
 Proof. exact limits. Qed.
 Print Assumptions C10_limits.
 
@@ -29,33 +29,36 @@ Print Assumptions C10_reader_refines.
 (* decoding ANY byte stream (well-formed or not) gives the same messages and the same first
    error however the stream is split into reads *)
 Theorem C10_chunking : forall B szs endv data, 1 <= B ->
-  decode_all_chunked max_array_len max_bulk_len B szs endv data = decode_all_flat max_array_len max_bulk_len B endv data.
+  decode_all_chunked max_array_len max_bulk_len max_array_depth B szs endv data = decode_all_flat max_array_len max_bulk_len max_array_depth B endv data.
 Proof. exact chunking. Qed.
 Print Assumptions C10_chunking.
 
-(* encode then decode is the identity and consumes exactly the encoded bytes *)
-Theorem C10_roundtrip : forall B v fuel rest e, 22 <= B -> wfv v -> (depth v < fuel)%nat ->
-  decode frd (flat_ops B) max_array_len max_bulk_len fuel (fs (encode T v ++ rest) e) = (Ok v, fs rest e).
+(* encode then decode is the identity and consumes exactly the encoded bytes, for every value nested no deeper
+   than the decoder's limit (maxArrayDepth, regenerated; d = arrays already open) *)
+Theorem C10_roundtrip : forall B v fuel d rest e, 22 <= B -> wfv v -> (depth v < fuel)%nat ->
+  d + N.of_nat (depth v) <= max_array_depth ->
+  decode frd (flat_ops B) max_array_len max_bulk_len max_array_depth fuel d (fs (encode T v ++ rest) e) = (Ok v, fs rest e).
 Proof. exact roundtrip_gen. Qed.
 Print Assumptions C10_roundtrip.
 
 (* decoding canonical bytes then re-encoding yields the same bytes *)
-Theorem C10_canonical : forall B v fuel rest e v' rest', 22 <= B -> wfv v -> (depth v < fuel)%nat ->
-  decode frd (flat_ops B) max_array_len max_bulk_len fuel (fs (encode T v ++ rest) e) = (Ok v', fs rest' e) ->
+Theorem C10_canonical : forall B v fuel d rest e v' rest', 22 <= B -> wfv v -> (depth v < fuel)%nat ->
+  d + N.of_nat (depth v) <= max_array_depth ->
+  decode frd (flat_ops B) max_array_len max_bulk_len max_array_depth fuel d (fs (encode T v ++ rest) e) = (Ok v', fs rest' e) ->
   encode T v' ++ rest' = encode T v ++ rest.
 Proof. exact canonical_gen. Qed.
 Print Assumptions C10_canonical.
 
 (* a concatenation of messages decodes to exactly those messages, then EOF, under every chunking *)
-Theorem C10_concat : forall B vs szs, 22 <= B -> wfl vs ->
-  decode_all_chunked max_array_len max_bulk_len B szs EOF (encode_list T vs) = (vs, EOF).
+Theorem C10_concat : forall B vs szs, 22 <= B -> wfl vs -> N.of_nat (depth_list vs) <= max_array_depth ->
+  decode_all_chunked max_array_len max_bulk_len max_array_depth B szs EOF (encode_list T vs) = (vs, EOF).
 Proof. exact concat_gen. Qed.
 Print Assumptions C10_concat.
 
 (* an inline command decodes to the same request as its array-of-bulk-strings form *)
-Theorem C10_inline : forall B ws c w0 rest e fuel,
+Theorem C10_inline : forall B ws c w0 rest e fuel d,
   Forall word_ok ws -> join_sp ws = c :: w0 -> is_type_byte c = false -> (0 < fuel)%nat ->
-  decode frd (flat_ops B) max_array_len max_bulk_len fuel (fs (join_sp ws ++ [CR; LF] ++ rest) e)
+  decode frd (flat_ops B) max_array_len max_bulk_len max_array_depth fuel d (fs (join_sp ws ++ [CR; LF] ++ rest) e)
   = (Ok (Arr (Some (map (fun w => Bulk (Some w)) ws))), fs rest e).
 Proof. exact inline_gen. Qed.
 Print Assumptions C10_inline.
@@ -77,5 +80,5 @@ Print Assumptions C10_int_roundtrip.
 Example C10_sample_wf : wfv sample.
 Proof. exact sample_wf. Qed.
 Example C10_sample_roundtrip :
-  decode_all_chunked max_array_len max_bulk_len 32 [1;2;3;1;1;1;7] EOF (encode T sample ++ encode T sample) = ([sample; sample], EOF).
+  decode_all_chunked max_array_len max_bulk_len max_array_depth 32 [1;2;3;1;1;1;7] EOF (encode T sample ++ encode T sample) = ([sample; sample], EOF).
 Proof. exact sample_roundtrip. Qed.
